@@ -213,6 +213,9 @@ def run(P: Program, R: Report, tier: str) -> None:
 
     # ---- R06.8 a move in the bookkeeping takes the nodes out of the old entry BEFORE it puts them into the new one
     move_order(P, R, ann, fams)
+    no_wholesale_replace(P, R, ann, fams)
+    positional_reads(P, R)
+    family_independence(P, R, ann, fams)
     # ---- R06.9 the neighbour query returns the time-nearest members of the track
     from .neighbours import nearest_neighbour
 
@@ -384,3 +387,97 @@ def fresh_node_ids(P: Program, R: Report) -> None:
                 R.ok("R06.6", holder, lp, f"{holder.short} returns the id that passed the membership test", via="dataflow")
             else:
                 R.undecided("R06.6", holder, lp, "the checked id is what the helper returns", "return shape not recognised")
+
+
+def no_wholesale_replace(P: Program, R: Report, ann, fams) -> None:
+    """R06.10: an existing entry of an id -> nodes map is never replaced wholesale.  `MAP[new] = <nodes>` is only right
+    when `new` has no entry yet; when a whole tracklet is merged INTO an existing id (join of two tracks, sibling adopts
+    the parent's id) the members already listed under `new` drop out of the lookup."""
+    n = 0
+    for fam in fams:
+        mp = f"self.{fam['map']}"
+        for m in ann.methods.values():
+            for s_ in ast.walk(m.node):
+                if not (isinstance(s_, ast.Assign) and len(s_.targets) == 1 and isinstance(s_.targets[0], ast.Subscript) and norm(s_.targets[0].value) == mp):
+                    continue
+                n += 1
+                k = norm(s_.targets[0].slice)
+                v = s_.value
+                empty = (isinstance(v, (ast.List, ast.Dict, ast.Set)) and not getattr(v, "elts", getattr(v, "keys", []))) or (
+                    isinstance(v, ast.Call) and call_name(v) in ("list", "set", "dict") and not v.args)
+                from .util import guards_of
+
+                gs = [g_.replace(" ", "") for g_ in guards_of(m, s_)]
+                guarded = f"{k}notin{mp}".replace(" ", "") in gs
+                R.check(empty or guarded, "R06.10", m, s_, f"{m.short}: an entry of {fam['map']} is created only when the id has none",
+                        f"`{norm(s_)[:80]}` can replace the list already stored under `{k}`: when nodes are moved INTO an id that is in use, "
+                        "its earlier members vanish from the lookup (neighbour and presence queries then miss them)", via="guard-shape")
+    R.count("R06.10 entry assignments", n)
+
+
+def family_independence(P: Program, R: Report, ann, fams) -> None:
+    """R06.12: whether a node is booked in / out of the TRACK lookup does not depend on its LINEAGE id (and vice versa).
+    A node can carry a track id and no lineage id (lineage feature off, node added with an explicit track id): a merged
+    guard `if track_id is None or lineage_id is None: return` leaves its track entry stale."""
+    if len(fams) < 2:
+        return
+    from .util import guards_of
+
+    n = 0
+    for i, fam in enumerate(fams):
+        other = fams[1 - i] if len(fams) == 2 else None
+        if other is None:
+            continue
+        stem = fam["map"].split("_id_")[0]
+        ostem = other["map"].split("_id_")[0]
+        for m in ann.methods.values():
+            if "bookkeeping" in m.name:
+                continue
+            # locals derived from the other family's key
+            tainted = set()
+            for s_ in ast.walk(m.node):
+                if isinstance(s_, ast.Assign) and (f"self.{other['key']}" in norm(s_.value) or f"get_{ostem}" in norm(s_.value)) and f"self.{fam['key']}" not in norm(s_.value):
+                    tainted |= {t.id for t in s_.targets if isinstance(t, ast.Name)}
+            for c in ast.walk(m.node):
+                if isinstance(c, ast.Call) and isinstance(c.func, ast.Attribute) and norm(c.func.value) == "self" and stem in c.func.attr and "bookkeeping" in c.func.attr:
+                    st = next((s_ for s_ in ast.walk(m.node) if isinstance(s_, ast.Expr) and s_.value is c), None)
+                    if st is None:
+                        continue
+                    n += 1
+                    gs = guards_of(m, st)
+                    dep = [g_ for g_ in gs if any(isinstance(x, ast.Name) and x.id in tainted for x in ast.walk(ast.parse(g_, mode="eval")))]
+                    R.check(not dep, "R06.12", m, c, f"{m.short}: the {stem} lookup is updated whatever the node's {ostem} id is",
+                            f"`{norm(c)[:60]}` runs only under {dep}: a node with a {stem} id but no {ostem} id is never booked {'out' if 'remove' in c.func.attr else 'in'} - its entry goes stale",
+                            via="guard-shape")
+    R.floor("R06.12", "bookkeeping calls in the handlers", n, 4)
+
+
+def positional_reads(P: Program, R: Report) -> None:
+    """R06.11: apart from get_track_neighbors (which orders by time first, R06.9), no query picks an element of a per-id
+    node list BY POSITION: the lists are in joining order, so `nodes[0]` / `nodes[-1]` are not the first / last in time."""
+    st = P.class_named("SolutionTracks")
+    n = 0
+    for m in st.methods.values():
+        if m.name == "get_track_neighbors":
+            continue
+        cands = set()
+        changed = True
+        while changed:
+            changed = False
+            for s_ in ast.walk(m.node):
+                if isinstance(s_, ast.Assign) and len(s_.targets) == 1 and isinstance(s_.targets[0], ast.Name) and s_.targets[0].id not in cands:
+                    src = norm(s_.value)
+                    if "_to_nodes[" in src or "_to_node[" in src or "_to_node.get(" in src or "_to_nodes.get(" in src or any(isinstance(x, ast.Name) and x.id in cands for x in ast.walk(s_.value)):
+                        cands.add(s_.targets[0].id)
+                        changed = True
+        if not cands and "_to_node" not in norm(m.node):
+            continue
+        n += 1
+        sorted_by_time = any(isinstance(c, ast.Call) and call_name(c) in ("sort", "sorted") and any(k.arg == "key" and "time" in norm(k.value) for k in c.keywords) for c in ast.walk(m.node))
+        pos = [x for x in ast.walk(m.node) if isinstance(x, ast.Subscript) and isinstance(x.ctx, ast.Load) and (
+            (isinstance(x.value, ast.Name) and x.value.id in cands) or "_to_node" in norm(x.value))
+            and (isinstance(x.slice, ast.Constant) and isinstance(x.slice.value, int) or (isinstance(x.slice, ast.UnaryOp) and isinstance(x.slice.operand, ast.Constant)))]
+        R.check(not pos or sorted_by_time, "R06.11", m, pos[0] if pos else m.node, f"{m.short} does not pick members of a per-id list by position",
+                f"`{norm(pos[0])[:50]}` takes an element by position, but the list is in joining order (a node re-added by undo is appended at the end): "
+                "the query disagrees with a scan of the graph" if pos else "", via="order-dependence")
+    R.floor("R06.11", "SolutionTracks queries over the per-id lists", n, 1)
